@@ -349,9 +349,12 @@ def run(rep: Report, tier: str):
     rep.rule("C05.ast-fields", "every AST node built is well-formed per its ASDL signature (sequence fields get lists/tuples, node fields get nodes, Constant.value gets a constant)", 40)
     rep.assume("pickletools' operand order and Lib/pickle.py's load_* semantics for which operand goes where (frozen in the table in check_dataflow)")
     rep.assume("every standard pickler memoises a container right after creating it and before filling it (why container identity matters)")
+    from ..pitfalls import check_pitfalls, handler_functions
+
+    check_pitfalls(repo, rep, "C05.dataflow", handler_functions(repo))
+    check_constant_ctor(repo, rep)
     sums = all_summaries(repo)
     rep.units = {"opcode_classes": len(sums), "paths": sum(len(s.paths) for s in sums)}
-    check_constant_ctor(repo, rep)
     check_dataflow(rep, sums)
     check_body_edits(rep, sums)
     check_in_place(rep, sums)
